@@ -28,8 +28,8 @@ PH = 'pySDC/helpers/problem_helper.py'
 TOL = Fr(1, 10**8)
 
 
-def _ob(name, ok, info=None):
-    return dict(name=name, status='proved' if ok else 'refuted', backend='exact-rational', seconds=0.0, kind='bounded', size=0,
+def _ob(name, ok, info=None, backend='exact-rational'):
+    return dict(name=name, status='proved' if ok else 'refuted', backend=backend, seconds=0.0, kind='bounded', size=0,
                 model=info if not ok else None, reason='', path=0)
 
 
@@ -199,7 +199,7 @@ def check_boundary_matrix(tier, seed):
                               try:
                                   A, b = get_finite_difference_matrix(derivative=d, order=o, stencil_type=layout, dx=dx, size=size, dim=1, bc=bc, bc_params=pars)
                               except Exception as e:
-                                  obs.append(_ob(f'boundary[d={d},o={o},{layout},{bc},reduce={reduce},size={size}]:builds', False, dict(error=repr(e))))
+                                  obs.append(_ob(f'boundary[d={d},o={o},{layout},{bc},reduce={reduce},size={size}]:builds', False, dict(error=repr(e)), backend='numeric'))
                                   break
                               res = dense(A) @ p(x) + b - target
                               scale = max(1.0, np.abs(dense(A)).max() * np.abs(p(x)).max())
@@ -208,6 +208,109 @@ def check_boundary_matrix(tier, seed):
                                              dict(max_residual=float(np.abs(res).max()), where=int(np.abs(res).argmax())) if not ok else None))
     return _pack('problem_helper.get_finite_difference_matrix[dirichlet/neumann]', obs, 'A p + b = p^(d) on all grid points for monomials within the closure degree',
                  f'derivative 1..2, orders {orders}, all four side combinations, both treatments, sizes n+1..n+{extra}')
+
+
+def check_boundary_parameter_forms(tier, seed):
+    """the boundary parameters of each side are the defaults overridden by THAT side's entries only; None, one dict for both sides,
+    and a list of two dicts with different key sets all mean the same as the fully spelled-out list (bit-identical matrix and vector);
+    the caller's dictionaries are not modified"""
+    import copy
+    from pySDC.helpers.problem_helper import get_finite_difference_matrix
+
+    rng = np.random.RandomState(seed + 3)
+    obs = []
+    for d, o, layout in ((1, 2, 'center'), (2, 2, 'center'), (2, 4, 'center'), (1, 3, 'upwind'), (1, 2, 'forward'), (2, 2, 'backward')):
+        for bc in (('dirichlet', 'dirichlet'), ('neumann', 'neumann'), ('dirichlet', 'neumann'), ('neumann', 'dirichlet')):
+            size = 12
+            dx = 0.1
+            va, vb = float(rng.randn()), float(rng.randn())
+            red = d == 2 and layout == 'center' and 'neumann' not in bc
+            full = lambda l, r: [dict(dict(val=0.0, reduce=False, neumann_bc_order=o), **l), dict(dict(val=0.0, reduce=False, neumann_bc_order=o), **r)]
+            forms = {
+                'None': (None, full({}, {})),
+                'one_dict_for_both_sides': (dict(val=va), full(dict(val=va), dict(val=va))),
+                'left_value_only': ([dict(val=va), {}], full(dict(val=va), {})),
+                'right_value_only': ([{}, dict(val=vb)], full({}, dict(val=vb))),
+                'neumann_order_left_only': ([dict(val=va, neumann_bc_order=1), dict(val=vb)], full(dict(val=va, neumann_bc_order=1), dict(val=vb))),
+                'neumann_order_right_only': ([dict(val=va), dict(val=vb, neumann_bc_order=1)], full(dict(val=va), dict(val=vb, neumann_bc_order=1))),
+            }
+            if red:
+                forms['reduce_left_only'] = ([dict(val=va, reduce=True), dict(val=vb)], full(dict(val=va, reduce=True), dict(val=vb)))
+                forms['reduce_right_only'] = ([dict(val=va), dict(val=vb, reduce=True)], full(dict(val=va), dict(val=vb, reduce=True)))
+            for nm, (short, spelled) in forms.items():
+                tag = f'bc_params[d={d},o={o},{layout},{bc[0]}/{bc[1]},{nm}]'
+                kw = dict(derivative=d, order=o, stencil_type=layout, dx=dx, size=size, dim=1, bc=bc)
+                given = copy.deepcopy(short)
+                inner_before = copy.deepcopy(short) if isinstance(short, list) else None
+                try:
+                    A1, b1 = get_finite_difference_matrix(bc_params=given, **kw)
+                    A2, b2 = get_finite_difference_matrix(bc_params=copy.deepcopy(spelled), **kw)
+                except Exception as e:
+                    obs.append(_ob(f'{tag}:builds', False, dict(error=repr(e)[:160]), backend='numeric'))
+                    continue
+                same = np.array_equal(dense(A1), dense(A2)) and np.array_equal(b1, b2)
+                obs.append(_ob(f'{tag}:same_as_spelled_out_per_side_parameters', same, dict(max_diff_A=float(np.abs(dense(A1) - dense(A2)).max()), max_diff_b=float(np.abs(b1 - b2).max())) if not same else None, backend='numeric'))
+                if isinstance(short, dict):
+                    obs.append(_ob(f'{tag}:callers_dictionary_unchanged', given == short, backend='numeric'))
+    return _pack('problem_helper.get_finite_difference_matrix[boundary parameter forms]', obs, 'None / one dict / two dicts with different key sets equal the spelled-out per-side parameters',
+                 '6 (derivative, order, layout) choices x 4 side combinations x 6-8 parameter forms, random boundary values')
+
+
+def check_boundary_user_offsets(tier, seed):
+    """user-supplied integer offsets (contiguous or with gaps) with non-periodic boundaries: every interior line carries exactly the interior stencil,
+    the -min(offsets) / max(offsets) lines next to a boundary carry ONLY the one-sided closure of derivative+order points (nothing of the interior
+    stencil survives), and A p + b = p^(d) on all grid points for monomials below min(len(offsets), derivative+order)"""
+    from pySDC.helpers.problem_helper import get_finite_difference_matrix, get_finite_difference_stencil
+
+    sets = [[-1, 0, 1], [-2, -1, 0, 1, 2], [-3, -1, 0, 1, 3], [-4, -2, 0, 2, 4], [-2, 0, 1, 4], [-1, 0, 2], [-3, 0, 1], [0, 1, 3], [-3, -2, 0]]
+    if tier != 'quick':
+        sets += [[-5, -1, 0, 2], [-1, 0, 1, 5], [-4, -3, 1, 2, 6]]
+    obs = []
+    for steps in sets:
+        for d in (1, 2):
+            if d >= len(steps):
+                continue
+            for o in (1, 2, 3) if tier == 'quick' else (1, 2, 3, 4):
+                for bc in (('dirichlet', 'dirichlet'), ('neumann', 'dirichlet'), ('dirichlet', 'neumann')):
+                    size = max(steps) - min(steps) + o + d + 6
+                    xl, xr = -0.3, 1.1
+                    dx = (xr - xl) / (size + 1)
+                    x = np.array([xl + dx * (i + 1) for i in range(size)])
+                    tag = f'user_offsets[{steps},d={d},o={o},{bc[0]}/{bc[1]}]'
+                    coeff, offs = get_finite_difference_stencil(derivative=d, steps=np.array(steps))
+                    left, right = max(0, -min(offs)), max(0, max(offs))
+                    try:
+                        A0, _ = get_finite_difference_matrix(derivative=d, order=o, steps=np.array(steps), dx=dx, size=size, dim=1, bc=bc, bc_params=[dict(val=0.0), dict(val=0.0)])
+                    except Exception as e:
+                        obs.append(_ob(f'{tag}:builds', False, dict(error=repr(e)[:160]), backend='numeric'))
+                        continue
+                    A0 = dense(A0)
+                    ok_int = True
+                    for i in range(left, size - right):
+                        row = np.zeros(size)
+                        row[i + np.asarray(offs)] = np.asarray(coeff) / dx**d
+                        ok_int = ok_int and np.allclose(A0[i], row, rtol=1e-12, atol=1e-12 / dx**d)
+                    obs.append(_ob(f'{tag}:interior_lines_are_the_interior_stencil', ok_int, backend='numeric'))
+                    width = d + o - 1
+                    ok_cl = all(not np.any(A0[i, width:] != 0) for i in range(left)) and all(not np.any(A0[size - 1 - i, : size - width] != 0) for i in range(right))
+                    obs.append(_ob(f'{tag}:boundary_lines_hold_only_the_closure', ok_cl, backend='numeric'))
+                    maxdeg = min(len(steps) - 1, d + o - 1)
+                    if 'neumann' in bc:
+                        maxdeg = min(maxdeg, o)
+                    bad = []
+                    for deg in range(0, maxdeg + 1):
+                        p = lambda t: t**deg
+                        dp = lambda t: deg * t ** (deg - 1) if deg >= 1 else 0.0 * t
+                        ddp = lambda t: deg * (deg - 1) * t ** (deg - 2) if deg >= 2 else 0.0 * t
+                        target = dp(x) if d == 1 else ddp(x)
+                        pars = [dict(val=float(p(xb) if side == 'dirichlet' else dp(xb))) for side, xb in zip(bc, (xl, xr))]
+                        A, b = get_finite_difference_matrix(derivative=d, order=o, steps=np.array(steps), dx=dx, size=size, dim=1, bc=bc, bc_params=pars)
+                        res = dense(A) @ p(x) + b - target
+                        if not np.abs(res).max() <= 1e-8 * max(1.0, np.abs(dense(A)).max() * np.abs(p(x)).max()):
+                            bad.append((deg, float(np.abs(res).max()), int(np.abs(res).argmax())))
+                    obs.append(_ob(f'{tag}:derivative_reproduced_up_to_the_boundary', not bad, dict(first=bad[:3]) if bad else None, backend='numeric'))
+    return _pack('problem_helper.get_finite_difference_matrix[user offsets, dirichlet/neumann]', obs, 'interior stencil in interior lines, pure closure in boundary lines, polynomial exactness up to the boundary',
+                 f'{len(sets)} offset sets (contiguous, gapped, one-sided), derivative 1..2, closure orders 1..3 (thorough: 4), three side combinations')
 
 
 def check_kron(tier, seed):
@@ -282,7 +385,7 @@ class Grid1D(Contract):
 
 
 CONTRACTS = [Grid1D]
-EXTRAS = [check_get_steps, check_stencil, check_periodic_matrix, check_boundary_matrix, check_kron]
+EXTRAS = [check_get_steps, check_stencil, check_periodic_matrix, check_boundary_matrix, check_boundary_parameter_forms, check_boundary_user_offsets, check_kron]
 ASSUMPTIONS = ['numpy.linalg.solve / scipy.sparse internals are outside the repository; their OUTPUT is what is checked (exact rational evaluation, allowance 1e-8 relative)',
                'closure from monomials to all polynomials of the degree is by linearity (not machine-checked)']
 UNDECIDED = ['grid sizes beyond the enumerated range', 'cupy path']
